@@ -355,6 +355,27 @@ VIEWS = [
     ("v-h-into-reader-helper", "Rodeo::into_reader through a private helper", "pass", [("src/rodeo.rs", sub("        unsafe { RodeoReader::new(map, hasher, strings, AnyArena::Arena(arena)) }\n    }", "        Self::freeze(map, hasher, strings, arena)\n    }\n\n    fn freeze(map: StringMap<K>, hasher: S, strings: Vec<&'static str>, arena: Arena) -> RodeoReader<K, S> {\n        unsafe { RodeoReader::new(map, hasher, strings, AnyArena::Arena(arena)) }\n    }"))]),
 ]
 
+CLONE = [
+    ("c-hasher-after-fill", "try_clone_from takes over the hasher after the copy (seeded C12-2 / C02-2)", "fail", [(R, sub("        self.hasher = source.hasher.clone();\n", "")), (R, sub("            &self.hasher,\n        )?;\n", "            &self.hasher,\n        )?;\n        self.hasher = source.hasher.clone();\n"))]),
+    ("c-reserve-before-clear", "try_clone_from clears the target after the reservations (seeded C12-3)", "fail", [(R, sub("        self.clear();\n        self.hasher = source.hasher.clone();\n", "        self.hasher = source.hasher.clone();\n")), (R, sub("        // Clone the values into the target interner\n", "        self.clear();\n"))]),
+    ("c-no-clear", "try_clone_from does not clear the target", "fail", [(R, sub("        self.clear();\n        self.hasher = source.hasher.clone();\n", "        self.hasher = source.hasher.clone();\n"))]),
+    ("c-limit-is-usage", "try_clone: the clone's limit is the source's current usage (seeded C12-4)", "fail", [(R, sub("max(self.arena.max_memory_usage, required_capacity.get()),", "max(self.arena.memory_usage(), required_capacity.get()),"))]),
+    ("c-fill-source-hasher", "try_clone fills the table with the source's own hasher instance", "fail", [(R, sub("clone_strings_into(&self.strings, &mut arena, &mut strings, &mut map, &hasher)?;", "clone_strings_into(&self.strings, &mut arena, &mut strings, &mut map, &self.hasher)?;"))]),
+    ("c-key-idx-plus1", "clone_strings_into: key made from idx + 1", "fail", [(R, sub("K::try_from_usize(idx)", "K::try_from_usize(idx + 1)"))]),
+    ("c-push-after-insert", "clone_strings_into: the copy is pushed after the table insert", "fail", [(R, sub("        // Push the newly allocated string to the `strings` vec\n        strings.push(allocated);\n", "")), (R, sub("                insert_string(vacant, strings, hasher, hash, key);\n            }\n\n            RawEntryMut::Occupied(_)", "                insert_string(vacant, strings, hasher, hash, key);\n                strings.push(allocated);\n            }\n\n            RawEntryMut::Occupied(_)"))]),
+    ("c-occupied-skips", "clone_strings_into: an occupied entry is silently skipped instead of unreachable!()", "fail", [(R, sub("                unreachable!(\"keys should be unique within cloned Rodeos\")\n", ""))]),
+    ("c-l-hoisted-check", "a key-space check hoisted in front of the loop (seeded C12-1)", "lost", [(R, sub("    for (idx, source_str) in source.iter().enumerate() {", "    if K::try_from_usize(source.len()).is_none() {\n        return Err(LassoError::new(LassoErrorKind::KeySpaceExhaustion));\n    }\n    for (idx, source_str) in source.iter().enumerate() {"))]),
+    ("c-l-clone-in-literal", "try_clone clones the hasher only in the final struct literal (seeded C12-5 style)", "lost", [(R, sub("            hasher,\n            strings,\n            arena,\n        })\n    }\n\n    /// Attempts to clone", "            hasher: self.hasher.clone(),\n            strings,\n            arena,\n        })\n    }\n\n    /// Attempts to clone"))]),
+    ("c-l-skip-enumerate", "the loop skips the first string", "lost", [(R, sub("source.iter().enumerate() {", "source.iter().enumerate().skip(1) {"))]),
+    ("c-h-rename", "locals renamed in clone_strings_into", "pass", [(R, sub("        let allocated = unsafe { arena.store_str(source_str)? };\n\n        // Push the newly allocated string to the `strings` vec\n        strings.push(allocated);\n\n        // Hash the allocated string\n        let hash = hasher.hash_one(allocated);\n\n        // Insert the allocated string into the string map\n        match get_string_entry_mut(map, strings, hash, allocated) {", "        let copy = unsafe { arena.store_str(source_str)? };\n        strings.push(copy);\n        let h = hasher.hash_one(copy);\n        match get_string_entry_mut(map, strings, h, copy) {")), (R, sub("                insert_string(vacant, strings, hasher, hash, key);\n            }\n\n            RawEntryMut::Occupied(_)", "                insert_string(vacant, strings, hasher, h, key);\n            }\n\n            RawEntryMut::Occupied(_)"))]),
+    ("c-h-hash-source", "clone_strings_into hashes and looks up the source string instead of the copy", "pass", [(R, sub("let hash = hasher.hash_one(allocated);", "let hash = hasher.hash_one(source_str);", nth=0, count=2)), (R, sub("match get_string_entry_mut(map, strings, hash, allocated) {", "match get_string_entry_mut(map, strings, hash, source_str) {", nth=0))]),
+    ("c-h-reserve-order", "try_clone_from reserves the table before the vector", "pass", [(R, sub("""        self.strings
+            .try_reserve(source.strings.len())
+            .map_err(|_| LassoError::new(LassoErrorKind::FailedAllocation))?;
+
+""", "")), (R, sub("        // Clone the values into the target interner\n", "        self.strings\n            .try_reserve(source.strings.len())\n            .map_err(|_| LassoError::new(LassoErrorKind::FailedAllocation))?;\n"))]),
+]
+
 SUITES = {
     "keys": {"files": [K], "runner": "run_keys.sh", "mutations": KEYS},
     "arena": {"files": [S, BK], "runner": "run_arena.sh", "mutations": ARENA},
@@ -362,4 +383,5 @@ SUITES = {
     "rodeo": {"files": [R], "runner": "run_rodeo.sh", "mutations": RODEO},
     "threaded": {"files": [T], "runner": "run_threaded.sh", "mutations": THREADED},
     "views": {"files": [RDR, RSV, R], "runner": "run_views.sh", "mutations": VIEWS},
+    "clone": {"files": [R], "runner": "run_clone.sh", "mutations": CLONE},
 }
